@@ -151,6 +151,14 @@ def gen(rng, d=0, jsonmode=True):
         # small ints and the keywords that are equal to them (never both in one dict), None
         extra = rng.choice([[0, 1], [True, False], [None, 1], [0, True], [False, 1, None], [2, 0]])
         keys = keys + extra[:rng.randint(1, len(extra))]
+    if rng.random() < 0.12:
+        # keys that agree in a long leading part (paths below one directory, qualified names of one package)
+        stem = rng.choice(["/srv/data/projects/", "com.example.app.module."]) * rng.choice([4, 5, 7])
+        keys = keys + [stem + t for t in rng.sample(["a", "b", "ab", "B", "", "a/1", "z" * 30], rng.randint(2, 4))]
+    if rng.random() < 0.12:
+        # keys spelled with combining marks and with the ready-made letters (different strings, whatever they look like)
+        keys = keys + rng.sample(["caf\u00e9", "cafe\u0301", "e\u0301x", "f", "\u212b", "\u00c5", "A\u030a", "\u2126",
+                                  "\u03a9", "e", "ez"], rng.randint(2, 5))
     if rng.random() < 0.06:
         keys = keys + [Colour.DARK, Loud("key")]
     rng.shuffle(keys)
